@@ -61,6 +61,10 @@ pub struct Shared {
     pub delivered: Cell<usize>,
     pub op: Cell<usize>,
     pub seq: Cell<usize>,
+    /// set when a policy answered with a size that is not larger than the current one (the reader would
+    /// loop forever on it) or with an absurd size (> 4 GiB; the allocation would abort the process): the harness
+    /// then refuses instead, and the checks report the flag
+    pub bad_answer: Cell<Option<(usize, usize)>>,
 }
 
 pub type PolLog = Rc<RefCell<Vec<PolEvent>>>;
@@ -80,7 +84,16 @@ impl RecPolicy {
 
 impl BufPolicy for RecPolicy {
     fn grow_to(&mut self, current_size: usize) -> Option<usize> {
-        let answer = self.kind.answer(current_size);
+        let mut answer = self.kind.answer(current_size);
+        if let Some(a) = answer {
+            if a <= current_size || a > (1usize << 32) {
+                // never hand such an answer to the reader (livelock / allocation failure); see `Shared::bad_answer`
+                if self.shared.bad_answer.get().is_none() {
+                    self.shared.bad_answer.set(Some((current_size, a)));
+                }
+                answer = None;
+            }
+        }
         let seq = self.shared.seq.get();
         self.shared.seq.set(seq + 1);
         self.log.borrow_mut().push(PolEvent {
